@@ -29,7 +29,7 @@ EXPLANATION = (
     'until hasStopAck, the quit path polls until hasQuitAck; (6) after the inner wait loop of doSearch the engine thread either '
     're-notifies itself or handles pending options before it can sleep again.'
     ' (7) completion-flag typestate of optionsSetFinished; waits written with the predicate overload are modelled like predicate loops.'
-    ' Added later; (10) every function that waits for has<X>Ack() polls with a handler whose <x>Ack callback calls send<X>Ack. (11) startSearch and ponderHit compute `infinite` from the same conjuncts. (12) a blocking wait of the protocol thread on the engine thread (waitStop / waitOptionsSet) is reached only with both hold flags cleared or when no search object exists: no circular wait with the engine thread\'s `while (*ponder || *infinite)`.')
+    ' Added later; (10) every function that waits for has<X>Ack() polls with a handler whose <x>Ack callback calls send<X>Ack. (11) startSearch and ponderHit compute `infinite` from the same conjuncts. (12) a blocking wait of the protocol thread on the engine thread (waitStop / waitOptionsSet) is reached only with both hold flags cleared or when no search object exists: no circular wait with the engine thread\'s `while (*ponder || *infinite)`. (13) createWorkers returns only after every helper it constructed - new slot or replaced slot - has signalled initialized.')
 UNDECIDED = ('absence of deadlock or lost wake-up over all interleavings of the composed protocol (a liveness property: model '
              'checking territory, a different technique family); fairness of the OS scheduler.')
 ASSUMPTIONS = ['std::condition_variable / std::mutex semantics of the C++ standard',
@@ -55,6 +55,7 @@ def run(fb, rep, tier):
     c10_ack_counting(fb, rep)
     c11_infinite_predicate(fb, rep)
     c12_protocol_waits(fb, rep)
+    c13_new_workers_awaited(fb, rep)
 
 
 # ----------------------------------------------------------------------------- .1
@@ -1046,3 +1047,89 @@ def c12_protocol_waits(fb, rep, clause='C10.12'):
             rep.ob(clause, 'K2 must-pass-through', '%s: the blocking %s() is reached only with both hold flags cleared, or when no search object exists' % (f.sname.split('::')[-1], cname(e).split('::')[-1]),
                    no_search or not missing, R.site(f, e), 'guarded by !sc' if no_search else ('flags not cleared on some path: %s' % missing if missing else 'ponder and infinite cleared on every path'), f.sname)
     rep.floor(clause, 'blocking waits on the engine thread in EngineControl', n, 3)
+
+
+# ----------------------------------------------------------------------------- .13
+
+def c13_new_workers_awaited(fb, rep, clause='C10.13'):
+    """K1/K2 publication of a new helper.  A WorkerThread registers with its parent (addChild) from its own thread; INIT / START
+    / STOP are sent to the children registered at that moment and the stop handshake counts them.  createWorkers() must
+    therefore not return before every helper it has just constructed has signalled `initialized` - whether the slot is new
+    or an existing helper was replaced because its thread number or subtree size changed.  Accepted shapes: every
+    construction records its slot in a local list in the same block and a later loop over that list waits for each recorded
+    slot; or a counted loop over all slots 0 .. numChildren-1 waits for each."""
+    f = fb.find1('WorkerThread::createWorkers')
+    if rep.need(clause, f, 'WorkerThread::createWorkers') is None:
+        return
+    params = {p_['id']: p_ for p_ in f.d.get('params', [])}
+    slots = [pid for pid, p_ in params.items() if 'vector' in (p_.get('t') or '') and 'WorkerThread' in (p_.get('t') or '')]
+    if rep.need(clause, slots, 'the children vector parameter of createWorkers') is None:
+        return
+    sid = slots[0]
+    decls = {v['id']: (b, v) for b, i, e in f.events() if e.get('k') == 'decl' for v in e.get('vars', [])}
+
+    def slot_index(t):
+        """index tree of children[idx] inside t, or None"""
+        for n in walk(t):
+            if isinstance(n, dict) and n.get('k') == 'call' and n.get('op') == '[]' and (strip_cast(n.get('recv')) or {}).get('id') == sid and n.get('args'):
+                return strip_cast(n['args'][0])
+        return None
+    cons = []
+    for b, i, e in f.events():
+        if e.get('k') == 'call' and e.get('op') == '=' and e.get('args') and slot_index(e.get('recv')) is not None and \
+                any(isinstance(n, dict) and n.get('k') in ('call', 'ctor') and ('make_shared' in cname(n) or cname(n).endswith('WorkerThread::WorkerThread')) for n in walk(e['args'][0])):
+            cons.append((b, i, e, slot_index(e['recv'])))
+    waits = [(b, i, e, slot_index(e.get('recv'))) for b, i, e in f.events() if e.get('k') == 'call' and cname(e) == 'WorkerThread::waitInitialized']
+    rep.floor(clause, 'helper constructions in createWorkers', len(cons), 1)
+    if rep.floor(clause, 'waitInitialized calls in createWorkers', len(waits), 1) is False or not cons or not waits:
+        rep.ob(clause, 'K2 must-pass-through', 'createWorkers waits for the helpers it constructed', False, f.where, 'no waitInitialized call', f.sname) if cons and not waits else None
+        return
+    loops = f.natural_loops()
+    ok_all = True
+    detail = []
+    for cb, ci, ce, cidx in cons:
+        covered = False
+        for wb, wi, we, widx in waits:
+            wv = widx.get('id') if isinstance(widx, dict) and widx.get('k') == 'var' else None
+            hs = [h for h, body in loops.items() if wb in body]
+            if wv is None or not hs:
+                continue
+            h = min(hs, key=lambda x: len(loops[x]))
+            t = f.blocks[h].get('term') or {}
+            if t.get('c') == 'CXXForRangeStmt':
+                # the list walked: __range = V; the loop variable is initialised from *__begin
+                rng = None
+                for vid, (db, v) in decls.items():
+                    if (v.get('n') or '').startswith('__range') and v.get('init') is not None:
+                        r0 = strip_cast(v['init'])
+                        if isinstance(r0, dict) and r0.get('k') == 'var' and f.pos_dominates((db, 0), (h, 0)):
+                            rng = r0['id']
+                if rng is None:
+                    continue
+                cv_ = cidx.get('id') if isinstance(cidx, dict) and cidx.get('k') == 'var' else None
+                rec = any(e.get('k') == 'call' and cname(e).split('::')[-1] in ('push_back', 'emplace_back') and (strip_cast(e.get('recv')) or {}).get('id') == rng and e.get('args') and
+                          (strip_cast(e['args'][0]) or {}).get('id') == cv_ and cv_ is not None for e in f.blocks[cb]['ev'])
+                if rec:
+                    # ... and the waiting loop is on every path from the construction to a return
+                    from .C12 import _path_avoiding_block
+                    rets = [e2 for _, _, e2 in f.events() if e2.get('k') == 'ret']
+                    if rets:
+                        skip = any(_path_avoiding_block(f, (cb, ci), re_, h) is not None for re_ in rets)
+                    else:
+                        skip = not all(h in f.dominators().get(x, set()) for x in [f.exit] if x in f.blocks)
+                    covered = covered or not skip
+            else:
+                # a counted loop over all slots: same bound expression as the constructing loop, starting at 0
+                ch = [x for x, body in loops.items() if cb in body]
+                if not ch:
+                    continue
+                chh = min(ch, key=lambda x: len(loops[x]))
+                wn = decls.get(wv, (0, {}))[1].get('n') or '?w'
+                cn_ = decls.get(cidx.get('id') if isinstance(cidx, dict) else None, (0, {}))[1].get('n') or '?c'
+                same_bound = show((f.blocks[h].get('term') or {}).get('cond'), 200).replace(wn, '$k') == show((f.blocks[chh].get('term') or {}).get('cond'), 200).replace(cn_, '$k')
+                init0 = (strip_cast(decls.get(wv, (0, {}))[1].get('init')) or {}).get('cv') == 0
+                covered = covered or (same_bound and init0)
+        ok_all = ok_all and covered
+        detail.append('%s:%s %s' % (f.file, ce.get('ln'), 'awaited' if covered else 'NOT awaited'))
+    rep.ob(clause, 'K2 must-pass-through', 'createWorkers returns only after every helper it constructed (new slot or replaced slot) has signalled initialized', ok_all,
+           R.site(f, cons[0][2]), '; '.join(detail), f.sname)
